@@ -13,8 +13,11 @@ Record block_pre := {
   bp_epoch : bool;                  (* height mod SlashEpoch = 0 *)
   bp_active : list Z;               (* bonded validators, power-index order *)
   bp_ids : list Z;                  (* every operator the harness knows (validators, ex-validators, strangers) *)
-  bp_items : list item;             (* due Challenging items in index-walk order *)
+  bp_items : list item;             (* due Challenging items in index-walk order; [it_proofs] = the proofs in
+                                       force by the harness's ghost state: (validator the accepted
+                                       submission was FOR, its indices), the latest per validator *)
   bp_thr : list (option Z);         (* the keeper's GetZkpThreshold per item; None = it panicked *)
+  bp_stored : list (list proof);    (* per item: the records as stored, Sender address as harness id *)
   bp_fc : list (Z * Z);             (* fault counters of bp_ids *)
   bp_cc : Z;                        (* challenge counter *)
   bp_vinfo : list (Z * vinfo) }.    (* staking flags of bp_ids *)
@@ -55,6 +58,20 @@ Definition same_set (a b : list Z) : bool :=
 Fixpoint nodupb (l : list Z) : bool :=
   match l with [] => true | x :: tl => negb (memz x tl) && nodupb tl end.
 
+(* the stored records are exactly the proofs in force: one record per validator, filed under the
+   validator's own account address (same id), with the indices of its latest accepted submission *)
+Definition proof_eqb (a b : proof) : bool :=
+  (pf_sender a =? pf_sender b) && zlist_eqb (pf_indices a) (pf_indices b).
+Definition same_records (a b : list proof) : bool :=
+  (Nat.eqb (length a) (length b)) &&
+  forallb (fun x => existsb (proof_eqb x) b) a && forallb (fun x => existsb (proof_eqb x) a) b.
+Fixpoint stored_ok (its : list item) (st : list (list proof)) : bool :=
+  match its, st with
+  | [], [] => true
+  | it :: tl, s :: tl' => same_records (it_proofs it) s && stored_ok tl tl'
+  | _, _ => false
+  end.
+
 Definition opt_eqb (a b : option Z) : bool :=
   match a, b with Some x, Some y => x =? y | None, None => true | _, _ => false end.
 
@@ -75,7 +92,8 @@ Definition predict (fx : fixes) (p : block_pre) :=
 
 Definition block_corr_with (fx : fixes) (p : block_pre) (o : block_obs) : bool :=
   nodupb (bp_ids p) &&
-  thr_ok (bp_rf p) (Z.of_nat (length (bp_active p))) (bp_items p) (bp_thr p) &&
+  (thr_ok (bp_rf p) (Z.of_nat (length (bp_active p))) (bp_items p) (bp_thr p) &&
+   stored_ok (bp_items p) (bp_stored p)) &&
   match predict fx p with
   | None => bo_panic o
   | Some (st', vs, sl) =>
